@@ -214,7 +214,18 @@ def rule_r2(repo):
     reader = repo.func('utils', 'template_data_nested_json_to_flat_json')
     reader2 = repo.func('utils', 'nested_json_to_flat_json')
     reader_keys = set()
-    for f in (reader, reader2):
+    # the readers and every module-level helper of utils they call, transitively (closures moved out of the function are still the reader)
+    um = repo.module('utils')
+    readers, work = [], [reader, reader2]
+    while work:
+        f = work.pop()
+        if any(f is x for x in readers):
+            continue
+        readers.append(f)
+        for n in ast.walk(f.node):
+            if isinstance(n, ast.Name) and n.id in um.funcs and not any(um.funcs[n.id] is x for x in readers):
+                work.append(um.funcs[n.id])
+    for f in readers:
         for n in ast.walk(f.node):
             if isinstance(n, ast.Subscript) and isinstance(n.slice, ast.Constant) and isinstance(n.slice.value, str):
                 reader_keys.add(n.slice.value)
@@ -275,7 +286,20 @@ def fixed_prefix_width(fmt, int_widths):
 def rule_r3(repo):
     rr = RuleResult('C09.R3', 'text contracts between the text renderers and utils.*_text_to_flat_json')
     fr = repo.own_method('FlatTextRenderer', '_render_template_data')
-    fmts = [(f, n) for f, n in _format_strings(fr.node) if '{!r}' in f and 'subset' not in f]
+    # the value line formats, wherever in the class they are written (the method itself or a helper it was split into)
+    fmts = []
+    methods = repo.cls('FlatTextRenderer').methods
+    closure, work = [], [fr]
+    while work:
+        mfi = work.pop()
+        if any(mfi is x for x in closure):
+            continue
+        closure.append(mfi)
+        for n in ast.walk(mfi.node):
+            if isinstance(n, ast.Attribute) and isinstance(n.value, ast.Name) and n.value.id in ('self', 'cls', 'FlatTextRenderer') and n.attr in methods:
+                work.append(methods[n.attr])
+    for mfi in closure:
+        fmts += [(f, n) for f, n in _format_strings(mfi.node) if '{!r}' in f and 'subset' not in f and ' = ' not in f]
     reader = repo.func('utils', 'subsets_flat_text_to_flat_json')
     cols = set()
     for n in ast.walk(reader.node):
@@ -286,7 +310,10 @@ def rule_r3(repo):
         raise AnalysisError('utils.subsets_flat_text_to_flat_json: value column not recognised (%s)' % sorted(cols))
     col = cols.pop()
     if len(fmts) < 2:
-        raise AnalysisError('FlatTextRenderer._render_template_data: expected two value line formats, found %d' % len(fmts))
+        # written in a form this syntactic rule does not read (f-strings, concatenation): the column contract itself is decided by
+        # the render -> read-back fold (R5), which does not depend on how the line is formatted
+        rr.note('flat text value lines are not plain str.format calls (%d found): column contract left to the fold of R5' % len(fmts))
+        fmts = []
     for f, n in fmts:
         # integer fields are produced by fixed_width_repr_of_int(value, width)
         widths = []
@@ -296,7 +323,8 @@ def rule_r3(repo):
         w = fixed_prefix_width(f, widths)
         rr.instance('flat text line %r: value starts at column %s (reader slices at %d)' % (f, w, col))
         if w is None:
-            raise AnalysisError('flat text line format %r is not fixed-width before the value' % f)
+            rr.note('flat text line format %r: width before the value not readable syntactically; left to the fold of R5' % f)
+            continue
         if w != col:
             rr.fail('flat-text:column:%s' % ('linked' if '->' in f else 'plain'), '%s:%d' % (fr.module.relpath, n.lineno),
                     'the value of a %s line starts at column %d but flat_text_to_flat_json reads line[%d:]' % ('linked' if '->' in f else 'plain', w, col))
